@@ -206,6 +206,12 @@ def run(S):
                 S.violation('C07:' + lab, 'C07:%s: %s' % (lab, w['what']), dict(api=w, model=info))
             else:
                 S.inconclusive.append('C07:%s: solver model %r has no reproduction in the native corpus' % (lab, info))
+    else:
+        # the corpus must agree with the solver's verdict on this tree (guards the corpus itself)
+        w = native_confirm(S)
+        S.validation['native_corpus'] = 'clean (%d sources)' % len(CORPUS) if not w else w['what']
+        if w:
+            S.inconclusive.append('C07: the native corpus shows a deviation the solver-decided units do not explain: %s' % w['what'])
     S.assumptions += [
         'typst-syntax accessors (CodeBlock::body, casts) follow their contracts; Code body = the Code child of the block',
         'the comment text test is the uninterpreted predicate contains("@typstyle off"); the substring search itself is std code',
@@ -227,6 +233,12 @@ CORPUS = [
     ('argument', '#f(\n  // @typstyle off\n  ( 1,2 ),\n  ( 3,4 ),\n)\n', '( 1,2 )', '(3, 4)'),
     ('array-item', '#(\n  // @typstyle off\n  ( 1,2 ),\n  ( 3,4 ),\n)\n', '( 1,2 )', '(3, 4)'),
     ('math', '$\n  // @typstyle off\n  a+b   c \n$\n', 'a+b   c', None),
+    ('math-group', '$ x   + (/* @typstyle off */ a  +  b) $\n', 'a  +  b)', 'x + ('),
+    ('math-bracket', '$ [ /* @typstyle off */ a   b ]   +   y $\n', 'a   b ]', '+ y $'),
+    ('math-brace', '$ abs(x)   + {/* @typstyle off */ u  -  v} $\n', 'u  -  v}', 'abs(x) + {'),
+    ('math-arg', '$ sin(/* @typstyle off */ a  +  b,   c   d) $\n', 'a  +  b', 'c d)'),
+    ('math-inner', '$ x   + /* @typstyle off */ (a  +  b)   c $\n', '(a  +  b)', 'x + /*'),
+    ('math-embedded', '$ x /* @typstyle off */ #f(a,   b)   +   y $\n', '#f(a,   b)', '+ y $'),
     ('rhs', '#let x = /* @typstyle off */ ( 1,2 )\n#let y = ( 1,2 )\n', '( 1,2 )', 'y = (1, 2)'),
     ('body', '#let f() = /* @typstyle off */ { 1+1 }\n#let g() = { 1+1 }\n', '{ 1+1 }', '{ 1 + 1 }'),
     ('second-node', '// @typstyle off\n#f( 1 ,2 ) #g( 1 ,2 )\n', '#f( 1 ,2 )', 'g(1, 2)'),
